@@ -96,7 +96,7 @@ var<workgroup> wa: array<u32, 4>;
 @compute @workgroup_size(1) fn main() {
   pa[a[0]] = 7u;
   wa[1] = pa[0] + pa[1] + pa[2];
-  o[0] = wa[1] + wa[2];             // 1 + 7 + 3 + 0
+  o[0] = wa[1];                     // 1 + 7 + 3
 }`,
 			bufs: map[gb][]byte{{0, 0}: zeros(4), {0, 1}: u32s(1)},
 			want: map[gb][]any{{0, 0}: wordsOf(uint32(11))},
@@ -188,7 +188,7 @@ struct S { m32: mat3x2<f32>, m33: mat3x3<f32>, tail: f32 }   // m32 at 0 (24 byt
   s.tail = t.x + t.y + t.z;
   s.m33[0] = s.m33 * vec3<f32>(1.0, 0.0, 0.0);   // column 0 unchanged
 }`,
-			bufs: map[gb][]byte{{0, 0}: seqF32(21)},
+			bufs: map[gb][]byte{{0, 0}: seqF32(24)},
 			want: map[gb][]any{{0, 0}: wordsOf(float32(0), float32(1), float32(4), float32(6), float32(4), float32(50), skip, skip,
 				float32(8), float32(9), float32(10), skip, float32(12), float32(13), float32(17), skip, float32(16), float32(17), float32(18), skip, float32(36))},
 		},
@@ -244,6 +244,105 @@ struct Buf { count: u32, items: array<Item> }
 				{0, 0}: wordsOf(uint32(2), skip, skip, skip, float32(1), float32(2), float32(3), uint32(12), float32(4), float32(5), float32(6), uint32(25), float32(7), float32(8), float32(9), uint32(38)),
 				{0, 1}: wordsOf(uint32(3), uint32(47)),
 			},
+		},
+		{
+			name: "atomics signed and sub",
+			wgsl: `
+@group(0) @binding(0) var<storage, read_write> o: array<i32>;
+@group(0) @binding(1) var<storage, read_write> s: array<atomic<i32>, 4>;
+@group(0) @binding(2) var<storage, read_write> us: array<atomic<u32>, 2>;
+var<workgroup> wi: atomic<i32>;
+var<workgroup> wu: atomic<u32>;
+@compute @workgroup_size(4) fn main(@builtin(local_invocation_index) li: u32) {
+  let k = i32(li);
+  atomicSub(&s[0], k + 1);           // 100 - 10
+  atomicMin(&s[1], k - 2);           // 5 -> -2
+  atomicMax(&s[2], k - 10);          // -20 -> -7
+  atomicXor(&s[3], 1 << li);         // 0 -> 15
+  atomicMax(&us[0], li);             // 0xFFFFFFF0 stays (unsigned)
+  atomicMin(&us[1], 0xFFFFFFF0u + li);  // 0xFFFFFFFF -> 0xFFFFFFF0
+  atomicAdd(&wi, -k);                // 0 -1 -2 -3 = -6
+  atomicOr(&wu, 1u << (li * 4u));    // 0x1111
+  workgroupBarrier();
+  if (li == 0u) {
+    o[0] = atomicLoad(&wi);
+    o[1] = i32(atomicLoad(&wu));     // 0x1111
+    let old = atomicExchange(&wi, 9);
+    o[2] = old + atomicLoad(&wi);    // -6 + 9
+    atomicStore(&wu, 77u);
+    o[3] = i32(atomicAnd(&wu, 0x0Fu)) + i32(atomicLoad(&wu)) * 1000; // 77 + 13000
+  }
+}`,
+			bufs: map[gb][]byte{{0, 0}: zeros(16), {0, 1}: i32s(100, 5, -20, 0), {0, 2}: u32s(0xFFFFFFF0, 0xFFFFFFFF)},
+			want: map[gb][]any{{0, 0}: wordsOf(-6, 0x1111, 3, 13077), {0, 1}: wordsOf(90, -2, -7, 15), {0, 2}: wordsOf(uint32(0xFFFFFFF0), uint32(0xFFFFFFF0))},
+		},
+		{
+			name: "vector helpers and bool conversions",
+			wgsl: outI + inI + `@compute @workgroup_size(1) fn main() {
+  let v = vec3<i32>(a[0], a[1], a[2]);     // 7, -7, 0
+  let q = v / vec3<i32>(2, 0, 5);          // 3, -7, 0
+  let r = v % vec3<i32>(4, 3, 0);          // 3, -1, 0
+  o[0] = q.x * 100 + q.y * 10 + q.z;       // 300 - 70
+  o[1] = r.x * 100 + r.y * 10 + r.z;       // 300 - 10
+  let n = -v;
+  o[2] = n.x + n.y * 10;                   // -7 + 70
+  let b = v > vec3<i32>(0);
+  o[3] = i32(b.x) + i32(b.y) * 10 + i32(all(b)) * 100 + i32(any(b)) * 1000 + i32(!b.z) * 10000;  // 1 + 0 + 0 + 1000 + 10000
+  let f = vec3<f32>(v);
+  let back = vec3<i32>(f * 1.5);           // 10, -10, 0
+  o[4] = back.x - back.y;                  // 20
+  let u = vec2<u32>(v.xy);                 // 7, 0xFFFFFFF9
+  o[5] = i32(u.y >> 28u) + i32(u.x);       // 15 + 7
+  o[6] = abs(a[3]) + (-a[3]) + a[3];       // INT_MIN (abs wraps, negation wraps): MIN + MIN + MIN = MIN
+  o[7] = i32(f32(a[0]) > 6.5) + i32(bool(a[2])) * 10 + i32(bool(a[1])) * 100 + i32(u32(true));  // 1 + 0 + 100 + 1
+  o[8] = select(a[0], a[1], a[2] == 0) + select(1, 2, false);   // -7 + 1
+  let sv = select(vec2<i32>(1, 2), vec2<i32>(3, 4), a[0] > 0);  // scalar condition with vectors: (3, 4)
+  o[9] = sv.x * 10 + sv.y;
+  o[10] = countOneBits(a[1]) + reverseBits(a[4]) + firstTrailingBit(a[4]) + firstLeadingBit(a[4]);  // 30 + 0x08000000 + 4 + 4
+  o[11] = clamp(a[1], -3, 3) + max(a[0], a[1]) * 10 + min(a[0], a[1]) * 100;   // -3 + 70 - 700
+}`,
+			bufs: map[gb][]byte{{0, 0}: zeros(48), {0, 1}: i32s(7, -7, 0, -2147483648, 16)},
+			want: map[gb][]any{{0, 0}: wordsOf(230, 290, 63, 11001, 20, 22, -2147483648, 102, -6, 34, 30+0x08000000+4+4, -633)},
+		},
+		{
+			name: "vector modf frexp and math on vectors",
+			wgsl: outF + inF + `@compute @workgroup_size(1) fn main() {
+  let v = vec2<f32>(a[0], a[1]);           // 2.75, -12.0
+  let m = modf(v);
+  o[0] = m.fract.x; o[1] = m.whole.x; o[2] = m.fract.y; o[3] = m.whole.y;   // 0.75, 2, -0, -12
+  let f = frexp(v);
+  o[4] = f.fract.x; o[5] = f32(f.exp.x); o[6] = f.fract.y; o[7] = f32(f.exp.y);  // 0.6875, 2, -0.75, 4
+  let l = ldexp(v, vec2<i32>(1, -2));      // 5.5, -3
+  o[8] = l.x; o[9] = l.y;
+  let c = clamp(v, vec2<f32>(0.0), vec2<f32>(1.0)); o[10] = c.x + c.y;  // 1 + 0
+  let mx = mix(vec2<f32>(0.0, 10.0), vec2<f32>(4.0, 20.0), 0.5); o[11] = mx.x + mx.y;   // 2 + 15
+  let mv = mix(vec2<f32>(0.0, 10.0), vec2<f32>(4.0, 20.0), vec2<f32>(0.25, 1.0)); o[12] = mv.x + mv.y; // 1 + 20
+  o[13] = dot(v, v);                       // 7.5625 + 144
+  let fl = floor(v) + ceil(v) + trunc(v) + round(v); o[14] = fl.x; o[15] = fl.y;   // 2+3+2+3, -48
+  o[16] = f32(all(v == v)) + f32(any(v != v)) * 10.0;
+  o[17] = pow(2.0, a[2]) + exp2(a[2]);     // a[2] = 3: 16 (approx)
+  o[18] = quantizeToF16(a[3]);             // 0.1 -> 0.0999755859375
+  o[19] = sqrt(a[4]) * inverseSqrt(a[4]);  // 4: 1 (approx)
+  o[20] = f32(i32(a[5])) + f32(u32(a[5])) + f32(i32(-a[5]));   // 7.9: 7 + 7 - 7
+  o[21] = a[0] % 2.0 + a[1] % 5.0;         // 0.75 + -2
+  o[22] = fma(a[0], 2.0, 1.0) + step(1.0, a[0]) + smoothstep(2.0, 3.0, a[0]);   // 6.5 + 1 + 0.84375
+}`,
+			bufs: map[gb][]byte{{0, 0}: zeros(92), {0, 1}: f32s(2.75, -12, 3, 0.1, 4, 7.9)},
+			want: map[gb][]any{{0, 0}: wordsOf(float32(0.75), float32(2), float32(0), float32(-12), float32(0.6875), float32(2), float32(-0.75), float32(4),
+				float32(5.5), float32(-3), float32(1), float32(17), float32(21), float32(151.5625), float32(10), float32(-48), float32(1), approx(16), float32(0.0999755859375), approx(1), float32(7), float32(-1.25), float32(8.34375))},
+		},
+		{
+			name: "dynamic index into a uniform array of matCx2",
+			wgsl: outF + `
+struct U { am: array<mat4x2<f32>, 2> }
+@group(0) @binding(1) var<uniform> u: U;
+@group(0) @binding(2) var<storage, read> idx: array<i32>;
+@compute @workgroup_size(1) fn main() {
+  let j = idx[0];                      // 1
+  o[0] = u.am[j][2].y;                 // (32 + 16 + 4) / 4 = 13
+}`,
+			bufs: map[gb][]byte{{0, 0}: zeros(4), {0, 1}: seqF32(16), {0, 2}: i32s(1)},
+			want: map[gb][]any{{0, 0}: wordsOf(float32(13))},
 		},
 	})
 }
